@@ -342,3 +342,19 @@ func (d detached) Deadline() (time.Time, bool) { return d.inner.Deadline() }
 func (d detached) Done() <-chan struct{}       { return d.inner.Done() }
 func (d detached) Err() error                  { return d.inner.Err() }
 func (d detached) Value(k any) any             { return liveValues.Value(k) }
+
+// DetachValue is Detach as a by-value context type that == cannot compare (a struct with a slice field): legal
+// as a context.Context, and a trap for code that compares contexts or uses them as map keys.
+func DetachValue(ctx context.Context) context.Context {
+	return detachedValue{inner: ctx, notes: []string{"by value"}}
+}
+
+type detachedValue struct {
+	inner context.Context
+	notes []string
+}
+
+func (d detachedValue) Deadline() (time.Time, bool) { return d.inner.Deadline() }
+func (d detachedValue) Done() <-chan struct{}       { return d.inner.Done() }
+func (d detachedValue) Err() error                  { return d.inner.Err() }
+func (d detachedValue) Value(k any) any             { return liveValues.Value(k) }
